@@ -397,7 +397,8 @@ func continueProbe(dir string, got Folded) (msg string) {
 	if term == 0 {
 		term = 1
 	}
-	e := raftpb.Entry{Index: next, Term: term, Data: []byte("appended-after-recovery-appended-after-recovery")}
+	// longer than a sector: the new record must run over whatever followed the last valid record
+	e := raftpb.Entry{Index: next, Term: term, Data: payload(700, 0x40)}
 	hs := raftpb.HardState{Term: term, Vote: 1, Commit: got.State.Commit}
 	if err := w.Save(hs, []raftpb.Entry{e}); err != nil {
 		w.Close()
